@@ -144,15 +144,19 @@ class Invalid(BaseException):
 class State:
     """The mutable part of a build that a replay has to fork."""
 
-    def __init__(self, V, claims, created, inprog):
+    def __init__(self, V, claims, created, inprog, disturbed=None):
         self.V = V
         self.claims = claims        # key -> 'ok' | 'raised' | 'inprog'
         self.created = created      # set of dirs created in this build
         self.inprog = inprog        # set of output paths in progress
+        # previous outputs that this build physically moved aside to make a
+        # directory at their position (or to make room for a file where a
+        # stale directory was): they no longer match their record
+        self.disturbed = disturbed if disturbed is not None else set()
 
     def fork(self):
         return State(self.V.copy(), dict(self.claims), set(self.created),
-                     set(self.inprog))
+                     set(self.inprog), set(self.disturbed))
 
 
 class ModelBuild:
@@ -303,16 +307,18 @@ class ModelBuild:
         new = self.versions.get(fname)
         return jeq(old, new)
 
-    def _intact(self, rec):
+    def _intact(self, rec, st=None):
         n = self.T_pre.get(rec.path)
         if n is None or n[0] != 'f':
+            return False
+        if rec.path in (st or self.st).disturbed:
             return False
         sig = out_sig(n)
         if rec.cmp == 'HASH':
             return sig[0] == rec.out[0]
         return sig[1] == rec.out[1] and sig[2] == rec.out[2]
 
-    def _setup_file(self, st, path):
+    def _setup_file(self, st, path, physical=False):
         """Setup of build_file on state ``st``: raise or create parents.
 
         Returns the list of directories created."""
@@ -336,7 +342,8 @@ class ModelBuild:
             raise NotADirectoryError(d)
         if not self.allow_ancestor_outputs:
             for k, v in st.claims.items():
-                if k[0] == 'f':
+                # (a failed build_file left no output: not an output path)
+                if k[0] == 'f' and v != 'raised':
                     q = k[1]
                     if q.startswith(path + '/') or path.startswith(q + '/'):
                         raise Invalid('output path is an ancestor of another')
@@ -345,6 +352,14 @@ class ModelBuild:
             st.V.put(d, ('d',))
             st.created.add(d)
             made.append(d)
+            if physical and self.T_pre.is_file(d):
+                st.disturbed.add(d)
+        if physical and self.T_pre.is_dir(path):
+            # a stale directory at the target position is emptied and removed
+            pre = path + '/'
+            for q, n in self.T_pre.nodes.items():
+                if n[0] == 'f' and q.startswith(pre):
+                    st.disturbed.add(q)
         return made
 
     def _fail_file(self, st, path):
@@ -381,14 +396,16 @@ class ModelBuild:
                     return why
                 st.claims[s.key] = s.status
             else:
-                if s.status == 'ok' and not self._intact(s):
+                if s.status == 'ok' and not self._intact(s, st):
                     return 'output changed'
                 if s.status == 'raised' and st.V.exists(s.path):
                     # re-executing would remove the (foreign) file, or fail
                     # in setup if it is a directory
                     return 'failed output path exists'
                 try:
-                    self._setup_file(st, s.path)
+                    # (applying a served record creates the directories of
+                    # its successful outputs for real)
+                    self._setup_file(st, s.path, physical=s.status == 'ok')
                 except Invalid:
                     raise
                 except Exception:
@@ -506,7 +523,7 @@ class ModelBuilder:
                     raise RuntimeError('same file twice')
                 hint['used'] = True
                 raise hint['cls']('injected')
-            made = mb._setup_file(st, path)
+            made = mb._setup_file(st, path, physical=True)
         except Invalid:
             raise
         except Exception as e:
